@@ -16,7 +16,7 @@ from fractions import Fraction
 from vlib.framework import Family, COQ, BUILD, NPROC
 from vlib import coqlit as L
 from vlib.exactq import ExactQ, to_frac
-from C13_kinds import KINDS, expected_ok, run_kind
+from C13_kinds import KINDS, expected_ok, run_kind, call_strategy, OTHER_MEMBER, ALIASES
 
 PID = "C13"
 PROP_FILES = ["Prop", "Prop2"]
@@ -117,7 +117,9 @@ def gen_comb(tier, rng):
         xs = [Fraction(1)] + [Fraction(0)] * (4 * delay + 2)
         yield {"kind": kind, "delay": delay, "alpha": fr(a), "xs": [fr(x) for x in xs],
                "tags": ["impulse", kind]}
-  n = 150 if tier == "quick" else 2500
+  for c in gen_comb_regions(tier, rng):
+    yield c
+  n = 100 if tier == "quick" else 2500
   for _ in range(n):
     kind = rng.choice(["fb", "ff", "tau"])
     delay = rng.randrange(1, 13) if rng.random() < 0.95 else 0
@@ -141,23 +143,97 @@ def gen_comb(tier, rng):
     yield c
 
 
+TAU_REGIONS = [  # (tag, value) - negative (alpha > 1), tiny (alpha underflows to 0), huge, infinities, number kinds
+  ("negative", -6.0), ("negative", -2.5), ("negative", -100.0), ("negative-small", -0.05), ("tiny", 1e-3),
+  ("tiny", 0.004), ("huge", 1e300), ("huge-negative", -1e300), ("inf", float("inf")), ("-inf", float("-inf")),
+  ("int", 5), ("int-negative", -7), ("Fraction", Fraction(7, 2)), ("Fraction-negative", Fraction(-9, 4)), ("bool", True)]
+
+
+def _num(kind, v):
+  """a parameter value of the requested number kind ("q" = ExactQ)"""
+  f = Fraction(v)
+  if kind == "q": return ExactQ(f)
+  if kind == "int": return int(f)
+  if kind == "float": return float(f)
+  if kind == "frac": return f
+  if kind == "bool": return bool(f)
+  raise ValueError(kind)
+
+
+def gen_comb_regions(tier, rng):
+  """(f) parameter regions and number kinds; (i) changed default strategy, aliases, re-assigned alias.
+  Fraction alphas are dyadic: the filter code generator prints a Fraction coefficient as `n/d`, i.e. executes it as
+  the nearest double (C04's ground, known there); a non-dyadic Fraction alpha therefore runs with float(alpha)."""
+  reps = 1 if tier == "quick" else 5
+  for rep in range(reps):
+    for tag, tau in TAU_REGIONS:
+      delay = rng.randrange(1, 7)
+      if isinstance(tau, float) and tau < 0 and delay / -tau > 600:
+        delay = 1   # e ** (+x) overflows beyond x ~ 709: not a filter, not generated
+      xs = [Fraction(rng.randrange(-9, 10), rng.choice([1, 2, 3])) for _ in range(2 * delay + 3)]
+      tj = tau.hex() if isinstance(tau, float) else ("True" if tau is True else [tau.numerator, tau.denominator])
+      yield {"kind": "tau", "delay": delay, "tauv": tj, "xs": [fr(x) for x in xs],
+             "dkind": rng.choice(["int", "int", "float", "bool"] if delay == 1 else ["int", "int", "float"]),
+             "tags": ["region", "tau", "tau:" + tag]}
+    for kind in ("fb", "ff"):
+      for akind, a in (("int", Fraction(2)), ("int", Fraction(-1)), ("float", Fraction(-3, 4)), ("float", Fraction(5, 2)),
+                       ("frac", Fraction(-5, 8)), ("bool", Fraction(1)), ("q", Fraction(-7, 5)), ("float", Fraction(1, 2 ** 40))):
+        delay = rng.randrange(1, 14)
+        xs = [Fraction(rng.randrange(-9, 10), rng.choice([1, 2, 3])) for _ in range(2 * delay + 3)]
+        yield {"kind": kind, "delay": delay, "alpha": fr(a), "akind": akind, "xs": [fr(x) for x in xs],
+               "dkind": rng.choice(["int", "float"]), "tags": ["region", kind, "alpha:" + akind]}
+    # StrategyDict state: every member by name / alias / sd[...] / sd(...) under a changed default or alias
+    for kind in ("fb", "ff", "tau"):
+      variants = [{"setdef": OTHER_MEMBER["comb"][kind]}, {"via": "call"}, {"realias": ["alpha", "ff" if kind != "ff" else "tau"]},
+                  {"setdef": OTHER_MEMBER["comb"][kind], "via": "item"}]
+      variants += [{"alias": al, "setdef": OTHER_MEMBER["comb"][kind]} for al in ALIASES["comb"][kind]]
+      for v in variants:
+        if v.get("realias") and kind == "fb" and False:
+          continue
+        delay = rng.randrange(1, 7)
+        xs = [Fraction(rng.randrange(-9, 10), rng.choice([1, 2, 3])) for _ in range(2 * delay + 3)]
+        c = {"kind": kind, "delay": delay, "xs": [fr(x) for x in xs], "sd": v,
+             "tags": ["strategydict", kind] + sorted(v.keys())}
+        if kind == "tau":
+          c["tauv"] = float(Fraction(rng.choice([-1, 1]) * rng.randrange(500, 20000), 1000)).hex()
+        else:
+          c["alpha"] = fr(Fraction(rng.randrange(-12, 13) or 5, rng.choice([2, 3, 7])))
+        yield c
+
+
+def _comb_call(c):
+  """the library call of a comb case, with its number kinds and StrategyDict state"""
+  delay = _num(c.get("dkind", "int"), c["delay"])
+  sdv = c.get("sd", {})
+  member = sdv.get("alias", c["kind"])
+  if c["kind"] == "tau":
+    if "tauv" in c:
+      t = c["tauv"]
+      tau = float.fromhex(t) if isinstance(t, str) and t != "True" else (True if t == "True" else Fraction(t[0], t[1]))
+      if isinstance(tau, Fraction) and tau.denominator == 1:
+        tau = int(tau)
+      args = (delay, tau)
+    elif c["tau"] == "default":
+      args = (delay,)
+    else:
+      args = (delay, float("inf") if c["tau"] == "inf" else float.fromhex(c["tau"]))
+  elif c.get("default_alpha"):
+    args = (delay,)
+  else:
+    args = (delay, _num(c.get("akind", "q"), Fraction(*c["alpha"])))
+  return call_strategy("comb", member, args, None, sdv.get("setdef"), sdv.get("realias"), sdv.get("via", "name"))
+
+
 def run_comb(c):
   import audiolazy
   try:
-    if c["kind"] == "tau":
-      if c["tau"] == "default":
-        f = audiolazy.comb.tau(c["delay"])
-      else:
-        f = audiolazy.comb.tau(c["delay"], float("inf") if c["tau"] == "inf" else float.fromhex(c["tau"]))
-    else:
-      strat = audiolazy.comb.fb if c["kind"] == "fb" else audiolazy.comb.ff
-      if c.get("default_alpha"):
-        f = strat(c["delay"])
-      else:
-        f = strat(c["delay"], ExactQ(Fraction(*c["alpha"])))
+    f = _comb_call(c)
     num, den = [fr(v) for v in f.numlist], [fr(v) for v in f.denlist]
     ys = [fr(v) for v in f([ExactQ(Fraction(a, b)) for a, b in c["xs"]])]
-    return {"kind": type(f).__name__, "num": num, "den": den, "ys": ys}
+    o = {"kind": type(f).__name__, "num": num, "den": den, "ys": ys}
+    if c["kind"] == "tau" and "tauv" in c:
+      TAU_CACHE.append((c, o))     # alpha is tied to exp(-delay / tau) by an enclosure goal
+    return o
   except Exception as e:
     return {"raise": type(e).__name__, "msg": str(e)[:100]}
 
@@ -276,26 +352,47 @@ def gen_contract(tier, rng):
              "tags": ["gammatone.sampled", "eta=default"]}
   for c in gen_hist(tier, rng):
     yield c
+  for c in gen_strategydict(tier, rng):
+    yield c
 
 
 def _call_design(c):
-  """one call of the library with the parameters of the case; returns the whole result"""
-  import audiolazy
+  """one call of the library with the parameters of the case; returns the whole result.
+  c["sd"] = {"setdef": member, "via": "name" | "item" | "call"}: the call is made while another member is the
+  default strategy of the StrategyDict, through sd[name], or through sd(...) with the member itself as default."""
   name = c["design"]
   w = grid_param(c["kw"])
   bw = grid_param(c["kbw"]) if c["kbw"] else None
   fam, strat = name.split(".")
-  sd = getattr(audiolazy, fam)
+  sdv = c.get("sd", {})
+  kwargs = None
   if fam in ("lowpass", "highpass"):
-    return sd[strat](w)
-  if fam == "resonator":
-    return sd[strat](w, bw)
-  if strat == "sampled":
-    if c.get("default"):
-      return sd.sampled(w, bw)
-    ph = grid_param(c["kph"]) if c["kph"] else (0.0 if c.get("phase_float") else 0)
-    return sd.sampled(w, bw, phase=ph, eta=c["eta"])
-  return sd[strat](w, bw)
+    args = (w,)
+  elif strat == "sampled" and not c.get("default"):
+    args = (w, bw)
+    kwargs = {"phase": grid_param(c["kph"]) if c["kph"] else (0.0 if c.get("phase_float") else 0), "eta": c["eta"]}
+  else:
+    args = (w, bw)
+  return call_strategy(fam, strat, args, kwargs, sdv.get("setdef"), sdv.get("realias"), sdv.get("via", "name"))
+
+
+def gen_strategydict(tier, rng):
+  """(i) every strategy of lowpass / highpass / resonator / gammatone under a changed default strategy"""
+  reps = 1 if tier == "quick" else 5
+  for rep in range(reps):
+    for name in sorted(LPHP) + sorted(RESON) + ["gammatone.sampled", "gammatone.slaney", "gammatone.klapuri"]:
+      fam, strat = name.split(".")
+      for v in ({"setdef": OTHER_MEMBER[fam][strat]}, {"via": "call"}, {"setdef": OTHER_MEMBER[fam][strat], "via": "item"}):
+        kw = rng.randrange(50, 3091)
+        kbw = 0 if name in LPHP else rng.randrange(20, 500)
+        if name not in LPHP and (near_zexp_boundary(kw, kbw) or near_zexp_boundary(kw, 2 * kbw)):
+          continue
+        c = {"design": name, "kw": kw, "kbw": kbw, "sd": v, "tags": ["strategydict", name] + sorted(v.keys())}
+        if fam == "gammatone":
+          c["sec"] = rng.randrange(0, 4)
+          if strat == "sampled":
+            c.update({"eta": 4, "kph": rng.choice(SAMPLED_PHASES)})
+        yield c
 
 
 JUNK_GAIN = 3   # the foreign section used by the in-place mutations has gain 3 at every frequency
@@ -521,6 +618,9 @@ def gen_stream(tier, rng):
   for rep in range(reps):
     for design, which in STREAM_DESIGNS:
       for kind in KINDS:
+        if tier == "quick" and kind not in ("Stream", "thub", "list", "gen") and \
+           not expected_ok(design, which, "list"):
+          continue   # kinds the library refuses there anyway: quick keeps four of them
         ln = rng.randrange(3, 6)
         c = {"design": design, "which": which, "kind": kind, "mode": "single", "p": _stream_params(design, rng, ln),
              "tags": [design, "kind=" + kind, "mode=single"]}
@@ -589,6 +689,11 @@ def gen_erb(tier, rng):
       for k in (1, 2, 3140):
         yield {"which": which, "freq": fr(Fraction(grid_param(k))), "hz": fr(Fraction(2 * math.pi / rate)),
                "tags": [which, "rad/sample", "edge"]}
+  for which in ("gm90", "mg83"):   # StrategyDict state: changed default, aliases, sd(...)
+    for v in [{"setdef": OTHER_MEMBER["erb"][which]}, {"via": "call"}] + \
+             [{"alias": al, "setdef": OTHER_MEMBER["erb"][which]} for al in ALIASES["erb"][which]]:
+      yield {"which": which, "freq": fr(Fraction(rng.randrange(7, 20000))), "hz": None, "sd": v,
+             "tags": [which, "strategydict"] + sorted(v.keys())}
   for i in range(n):
     which = "gm90" if i % 2 == 0 else "mg83"
     if rng.random() < 0.3:
@@ -602,13 +707,11 @@ def gen_erb(tier, rng):
 
 
 def run_erb(c):
-  import audiolazy
   try:
     f = ExactQ(Fraction(*c["freq"]))
-    if c["hz"] is None:
-      r = audiolazy.erb[c["which"]](f)
-    else:
-      r = audiolazy.erb[c["which"]](f, ExactQ(Fraction(*c["hz"])))
+    sdv = c.get("sd", {})
+    args = (f,) if c["hz"] is None else (f, ExactQ(Fraction(*c["hz"])))
+    r = call_strategy("erb", sdv.get("alias", c["which"]), args, None, sdv.get("setdef"), None, sdv.get("via", "name"))
     return {"val": fr(r)}
   except Exception as e:
     return {"raise": type(e).__name__, "msg": str(e)[:100]}
@@ -635,6 +738,7 @@ FAMILIES = {
 
 # ---------------------------------------------------------------------------- enclosure goals
 ENCL_CACHE = []   # (case, obs) of the contract family, filled by run_contract
+TAU_CACHE = []    # (case, obs) of the comb.tau cases with an explicit tau
 POLE_CACHE = []   # (case, obs) of the poles family
 GOALS_PER_FILE = 30
 
@@ -721,26 +825,36 @@ def make_goals(tier, rng):
 
 
 def make_misc_goals(tier, rng):
-  """comb.tau decay gain and gammatone_erb_constants"""
+  """comb.tau decay gain (every region / number kind / StrategyDict state of the comb family, plus seeded random
+  taus of both signs) and gammatone_erb_constants"""
   import audiolazy
   goals = []
+  def tau_goal(delay, tau, den, what):
+    alpha = -Fraction(*den[delay]) if len(den) > delay else Fraction(0)
+    tf = Fraction(int(tau)) if isinstance(tau, bool) else (None if isinstance(tau, float) and math.isinf(tau) else Fraction(tau))
+    model = "None" if tf is None else "(Some %s)" % rlit(tf)
+    expected = 1.0 if tf is None else math.exp(-delay / float(tf)) if abs(delay / float(tf)) < 700 else 0.0
+    goals.append(("holds", {"case": dict(what, design="comb.tau", delay=delay, tau=repr(tau)), "contract": "alpha = e ** (-delay / tau)",
+                            "library_alpha": float(alpha), "expected": expected},
+                  "verdict (comb_tau_alpha %d %s) %s %s" % (delay, model, rlit(alpha), rlit(tol_for(alpha))), "c13_decide"))
+  seen = set()
+  for c, o in TAU_CACHE:
+    key = json.dumps({k: v for k, v in c.items() if k not in ("tags", "xs")}, sort_keys=True)
+    if key in seen or "raise" in o:
+      continue
+    seen.add(key)
+    t = c["tauv"]
+    tau = float.fromhex(t) if isinstance(t, str) and t != "True" else (True if t == "True" else Fraction(t[0], t[1]))
+    tau_goal(c["delay"], tau, o["den"], {"sd": c.get("sd"), "tags": c["tags"]})
   n = 12 if tier == "quick" else 120
   for i in range(n):
     delay = rng.randrange(1, 13)
-    tau = float(Fraction(rng.randrange(1, 40000), 1000))
+    tau = float(Fraction(rng.choice([1, 1, -1]) * rng.randrange(100, 40000), 1000))
     f = audiolazy.comb.tau(delay, tau)
-    den = f.denlist
-    alpha = -Fraction(den[delay]) if len(den) > delay else Fraction(0)
-    goals.append(("holds", {"case": {"design": "comb.tau", "delay": delay, "tau": tau}, "contract": "alpha = e ** (-delay / tau)",
-                            "library_alpha": float(alpha), "expected": math.exp(-delay / tau)},
-                  "verdict (comb_tau_alpha %d (Some %s)) %s %s" % (delay, rlit(Fraction(tau)), rlit(alpha), rlit(TOL)), "c13_decide"))
+    tau_goal(delay, tau, [fr(v) for v in f.denlist], {})
   for delay in (1, 7):
     f = audiolazy.comb.tau(delay)
-    den = f.denlist
-    alpha = -Fraction(den[delay]) if len(den) > delay else Fraction(0)
-    goals.append(("holds", {"case": {"design": "comb.tau", "delay": delay, "tau": "inf"}, "contract": "alpha = 1 for tau = inf",
-                            "library_alpha": float(alpha)},
-                  "verdict (comb_tau_alpha %d None) %s %s" % (delay, rlit(alpha), rlit(TOL)), "c13_decide"))
+    tau_goal(delay, float("inf"), [fr(v) for v in f.denlist], {"default_tau": True})
   for n_ in range(1, 7 if tier == "quick" else 11):
     x, y = audiolazy.gammatone_erb_constants(n_)
     goals.append(("corr", {"case": {"design": "gammatone_erb_constants", "n": n_}, "coefficient": "x", "library_value": x},
@@ -795,14 +909,20 @@ def run_goal_files(chk, goals):
 
 def extra(chk, tier, rng):
   goals = make_goals(tier, rng) + make_misc_goals(tier, rng)
-  limit = 300 if tier == "quick" else 3600
+  limit = 380 if tier == "quick" else 3600
   if len(goals) > limit:
-    # keep every 'holds' goal, thin out the coefficient goals deterministically
-    holds = [g for g in goals if g[0] == "holds"]
+    # keep every comb.tau goal, thin out the pole-radius goals (quick: 80) and the coefficient goals deterministically
+    def thin(lst, k):
+      if len(lst) <= k:
+        return lst
+      step = len(lst) / float(max(1, k))
+      return [lst[int(i * step)] for i in range(k)]
+    taus = [g for g in goals if g[0] == "holds" and "comb_tau_alpha" in g[2]]
+    radius = [g for g in goals if g[0] == "holds" and "comb_tau_alpha" not in g[2]]
     corr = [g for g in goals if g[0] != "holds"]
-    step = len(corr) / float(max(1, limit - len(holds)))
-    corr = [corr[int(i * step)] for i in range(max(0, limit - len(holds)))]
-    goals = corr + holds
+    radius = thin(radius, 80 if tier == "quick" else 1200)
+    corr = thin(corr, max(0, limit - len(taus) - len(radius)))
+    goals = corr + radius + taus
   t0 = time.time()
   bad = run_goal_files(chk, goals)
   fs = chk.stats["families"].setdefault("enclosure", {"cases": 0, "corr_bad": 0, "holds_bad": 0})
